@@ -281,7 +281,7 @@ impl Gen {
             b
         };
         match self.profile.as_str() {
-            "mem" => boost(&[("intern", 40), ("setLimit", 8), ("mem", 6), ("audit", 10), ("clear", 4), ("internS", 5), ("tryClone", 3), ("tryCloneFrom", 3)]),
+            "mem" => boost(&[("intern", 40), ("setLimit", 8), ("mem", 6), ("audit", 10), ("clear", 4), ("internS", 5), ("tryClone", 3), ("tryCloneFrom", 3), ("via", 6)]),
             "exhaust" => boost(&[("intern", 30), ("internS", 12), ("internP", 10), ("internSP", 6), ("get", 10), ("clear", 1), ("via", 5)]),
             "clone" => boost(&[("clone", 8), ("tryClone", 6), ("cloneFrom", 6), ("tryCloneFrom", 6), ("drop", 5), ("new", 5), ("clear", 3), ("audit", 6), ("eq", 4)]),
             "clear" => boost(&[("clear", 10), ("intern", 40), ("internS", 10), ("audit", 5), ("get", 10), ("tryResolve", 10)]),
@@ -743,15 +743,17 @@ impl Gen {
     /// swapped; 2: one string loses its last byte and another gains one, each still a prefix of / extended from
     /// its counterpart; 3: an empty string and a non-empty one swapped) - compared in both directions and again
     /// after one side became a reader and then a resolver.
-    pub fn eq_pairs_case(&mut self, n: usize, variant: usize) {
+    pub fn eq_pairs_case(&mut self, n: usize, variant: usize, kinds: usize) {
         self.cap = 4294967295;
         self.slots.clear();
         self.build_universe(8);
         self.emit("case spur fnv1a".into());
         let pool: Vec<String> = self.pool.iter().map(|p| hex(p)).collect();
         self.emit(format!("pool {}", pool.join(" ")));
-        let s0 = self.new_slot("rodeo", 4096, None);
-        let s1 = self.new_slot("rodeo", 4096, None);
+        // both single-threaded / both concurrent / one of each
+        let (k0, k1) = [("rodeo", "rodeo"), ("threaded", "threaded"), ("rodeo", "threaded")][kinds % 3];
+        let s0 = self.new_slot(k0, 4096, None);
+        let s1 = self.new_slot(k1, 4096, None);
         let mut a: Vec<Vec<u8>> = (0..n).map(|i| format!("w{i:04}x").into_bytes()).collect();
         let i = (self.rng.below(n as u64 - 1)) as usize;
         let j = i + 1 + self.rng.below((n - i - 1) as u64) as usize;
